@@ -60,7 +60,10 @@ fn gen_store(rng: &mut Rng, max_recs: u64, with_dead: bool) -> Store {
     while (recs.len() as u64) < n {
         let len = if rng.chance(1, 6) { 11 - rng.below(2) } else { 1 + rng.below(5) } as usize;
         let syls: Vec<u16> = (0..len)
-            .map(|_| if rng.chance(1, 3) { *rng.pick(&[10268u16, 8708, 0x2208, 1, 65535]) } else { 1 + rng.below(65535) as u16 })
+            // valid stores hold syllable codes only (`Syllable::try_from` rejects everything else since the repair of
+            // F47: a record with another value makes the importer refuse the whole file — cases A2b / A3b below);
+            // 0x2bed = the largest code, 0x8000 = the empty pattern (accepted by `try_from`)
+            .map(|_| if rng.chance(1, 3) { *rng.pick(&[10268u16, 8708, 0x2208, 1, 0x2bed, 5, 0x2a00, 0x8000]) } else { valid_code(rng) })
             .collect();
         let phrase: String = (0..len).map(|_| *rng.pick(CHARS)).collect();
         if !keys.insert((syls.clone(), phrase.clone())) {
@@ -320,7 +323,7 @@ fn migrate_scenario(cx: &mut Ctx, rng: &mut Rng, st: &Store, uhash: &[u8], fmt: 
         let w = rng.pick(&want);
         (w.0.clone(), String::from_utf8_lossy(&w.1).to_string())
     } else {
-        (vec![10268, 8708, 1 + rng.below(60000) as u16], "策試新".to_string())
+        (vec![10268, 8708, valid_code(rng)], "策試新".to_string())
     };
     let (lf, lt) = (1 + rng.below(5000) as u32, rng.below(100000));
     let learned = catch_unwind(AssertUnwindSafe(|| {
@@ -395,6 +398,13 @@ fn c_cases(seed: u64, thorough: bool) -> Vec<CCase> {
     v.push(CCase { what: "fewer-characters-than-syllables".into(), uhash: one(r), want: None });
     let r = enc_bin_rec(&GRec { syls: vec![10268], phrase: "測試試".into(), ..base.clone() });
     v.push(CCase { what: "more-characters-than-syllables".into(), uhash: one(r), want: None });
+    // C13's F47 in a legacy store: a stored value that is not a syllable -> the importer refuses the file (InvalidData),
+    // the context is created over an empty user dictionary
+    for code in [0x6a07u16, 0x8208, 0xffff] {
+        let r = enc_bin_rec(&GRec { syls: vec![10268, code], phrase: "策試".into(), ..base.clone() });
+        v.push(CCase { what: format!("F47-bin-invalid-syllable-{:#06x}", code), uhash: one(r), want: None });
+        v.push(CCase { what: format!("F47-text-invalid-syllable-{:#06x}", code), uhash: format!("7\n策試 10268 {} 1 2 3 4\n", code).into_bytes(), want: None });
+    }
     v.push(CCase { what: "F26-lifetime-70000".into(), uhash: "70000\n策試 10268 8708 1 2 3 4\n".as_bytes().to_vec(),
         want: Some(vec![(vec![10268, 8708], "策試".as_bytes().to_vec(), 1, 2)]) });
     for name in ["golden-uhash-le-64.dat", "golden-uhash-text.dat"] {
@@ -572,6 +582,92 @@ fn main() {
         let b = format!("5\r\n{}", line).into_bytes();
         start_record(&mut cx, &b, "text-line-no-final-newline");
     }
+
+    // ---- A2b / A3b: a stored value `Syllable::try_from` rejects (F47 repaired), in either format, first / second /
+    // last syllable, before and after a good record: the whole load fails with InvalidData (both parsers), nothing
+    // is imported, nothing panics; the boundary values 0x2bed / 0x8000 / 1 / 5 are accepted
+    let hdr0 = {
+        let mut h = b"CBiH".to_vec();
+        h.extend_from_slice(&7i32.to_ne_bytes());
+        h
+    };
+    let good0 = enc_bin_rec(&GRec { syls: vec![77], phrase: "新".into(), fields: [5, 6, 7, 8], deleted: false });
+    let (mut n_inv_text, mut n_inv_bin, mut n_edge_ok) = (0, 0, 0);
+    let edge_ok: &[u16] = &[0x2bed, 0x8000, 1, 5, 0x2a00, 0x0180, 0x0068];
+    for (codes, bad) in [(INVALID_CODES, true), (edge_ok, false)] {
+        for &code in codes {
+            assert_eq!(is_syllable_code(code), !bad);
+            for pos in 0..3usize {
+                let mut syls = vec![10268u16, 8708, 77];
+                syls[pos] = code;
+                let line = format!("策試新 {} {} {} 1 2 3 4", syls[0], syls[1], syls[2]);
+                for b in [format!("5\n{}\n", line), format!("5\n新 77 5 6 7 8\n{}\n", line), format!("5\n{}\n新 77 5 6 7 8\n", line)] {
+                    let before = cx.n_imported;
+                    start_record(&mut cx, b.as_bytes(), if bad { "text-invalid-syllable-code" } else { "text-edge-syllable-code" });
+                    if bad {
+                        n_inv_text += 1;
+                        if cx.n_imported != before {
+                            cx.out.oracle_fail("C12", "new", &format!("text-store-with-invalid-syllable-code-{}-imported uhash=b{}", code, hex(b.as_bytes())));
+                        }
+                    } else {
+                        n_edge_ok += 1;
+                    }
+                }
+                let rec = enc_bin_rec(&GRec { syls: syls.clone(), phrase: "策試新".into(), fields: [9, 2, 3, 4], deleted: false });
+                for order in 0..3 {
+                    let mut f = hdr0.clone();
+                    match order {
+                        0 => f.extend(&rec),
+                        1 => {
+                            f.extend(&good0);
+                            f.extend(&rec)
+                        }
+                        _ => {
+                            f.extend(&rec);
+                            f.extend(&good0)
+                        }
+                    }
+                    let before = cx.n_imported;
+                    start_record(&mut cx, &f, if bad { "bin-invalid-syllable-code" } else { "bin-edge-syllable-code" });
+                    if bad {
+                        n_inv_bin += 1;
+                        if cx.n_imported != before {
+                            cx.out.oracle_fail("C12", "new", &format!("bin-store-with-invalid-syllable-code-{}-imported uhash=b{}", code, hex(&f)));
+                        }
+                    } else {
+                        n_edge_ok += 1;
+                    }
+                }
+            }
+        }
+    }
+    // random invalid codes (any non-zero u16 outside the code space) at a random place of a random valid store
+    let n_rand_inv = if thorough { 400 } else { 40 };
+    for i in 0..n_rand_inv {
+        let mut st = gen_store(&mut rng, 5, false);
+        if st.recs.is_empty() {
+            continue;
+        }
+        let code = loop {
+            let c = 1 + rng.below(65535) as u16;
+            if !is_syllable_code(c) {
+                break c;
+            }
+        };
+        let k = rng.below(st.recs.len() as u64) as usize;
+        let j = rng.below(st.recs[k].syls.len() as u64) as usize;
+        st.recs[k].syls[j] = code;
+        let (f, fmt) = if i % 2 == 0 { (enc_bin(&st), "bin") } else { (enc_text(&st), "text") };
+        let before = cx.n_imported;
+        start_record(&mut cx, &f, &format!("{}-random-invalid-syllable-code", fmt));
+        if cx.n_imported != before {
+            cx.out.oracle_fail("C12", "new", &format!("{}-store-with-invalid-syllable-code-{}-imported uhash=b{}", fmt, code, hex(&f)));
+        }
+        if fmt == "bin" { n_inv_bin += 1 } else { n_inv_text += 1 }
+    }
+    cx.out.stat("uhash_text_records_with_invalid_syllable_code", n_inv_text);
+    cx.out.stat("uhash_bin_records_with_invalid_syllable_code", n_inv_bin);
+    cx.out.stat("uhash_edge_syllable_codes_accepted_cases", n_edge_ok);
 
     // ---- A3: binary: every value of the length byte and of the phrase-bytes byte; degenerate records
     let hdr = {
